@@ -373,10 +373,13 @@ func (c *cmafIngester) start(ctx context.Context) {
 		if c.testNowMS == nil {
 			deltaTime := time.Duration(availabilityTime-int64(nowMS)) * time.Millisecond
 			for deltaTime <= 0 {
+				if lastSegNrToSend >= 0 && nextSegNr > lastSegNrToSend {
+					break // The last segment has been sent
+				}
 				msg := fmt.Sprintf("Segment availability time in the past: %d", availabilityTime)
 				c.report = append(c.report, msg)
 				c.log.Error(msg)
-				err := c.sendMediaSegments(ctx, nextSegNr, int(availabilityTime), false /* isLast */)
+				err := c.sendMediaSegments(ctx, nextSegNr, int(availabilityTime), nextSegNr == lastSegNrToSend)
 				if err != nil {
 					msg := fmt.Sprintf("Error sending media segments: %v", err)
 					c.report = append(c.report, msg)
